@@ -6,6 +6,7 @@ import z3
 
 from . import bridge as bridge_mod
 from . import driver
+from . import genprog
 from .checks_common import generic_replay
 from .fol import atom, gvar
 from .sem import asp_preds, fol_size
@@ -44,6 +45,9 @@ def generate(tier, seed):
     items = []
     for (l, r) in fixed + pairs[:n]:
         items.append({'family': 'pairs', 'left': l, 'right': r})
+    # grammar-generated programs over a confusable name pool, paired with a variant (equivalent or not) of themselves
+    for (l, r) in genprog.pairs(seed, 40 if tier == 'quick' else 1500):
+        items.append({'family': 'generated', 'left': l, 'right': r})
     return items
 
 
@@ -167,7 +171,7 @@ def replay(r):
 
 def describe(tier):
     return {
-        'rule': 'ordered pairs of programs from a pool of 26 small programs (propositional, first-order, arithmetic, '
+        'rule': 'grammar-generated programs over a confusable name pool (av/genprog.py) paired with a variant of themselves; fixed pairs (homonymous atoms/constants, copy-name constants, the recorded __s collision); ordered pairs of programs from a pool of 26 small programs (propositional, first-order, arithmetic, '
                 'intervals, choice, constraints, symbols clashing with 0-ary predicates) x {tau-star, mu} x 3 directions x 2 '
                 'decompositions x simplify x eq-break (48 configurations per pair); one obligation per (pair, configuration, '
                 'direction); problem families identical to an earlier configuration of the same pair are decided once; '
